@@ -28,6 +28,7 @@ inductive Ev where
   | sendCall (sid : Nat) | sendBad (sid : Nat) | write (c sid idx : Nat) | writeFail (c sid : Nat) | drainFail (c : Nat) | sendReturn (sid : Nat)
   | closeCall | writerClose (c : Nat) | closeReturn
   | closeCallInRecv                -- close() called from inside the receive task (from the status callback it runs)
+  | closeCallInReconn              -- close() called from inside the reconnect task (from the status callback that its connect() runs)
   | connCallInRecv                 -- connect() called from inside the receive task: returns at once, that task reconnects by itself
   | reconnStart | reconnEnd        -- life cycle of the reconnect task that a fault report schedules
   | reconnSleep (ms : Nat)         -- its own wait before it calls connect()
@@ -59,6 +60,7 @@ structure CS where
   reconn : Nat := 0                -- reconnect tasks alive
   reconnSlept : Bool := false      -- the live one has waited
   reconnCalled : Bool := false     -- … and has made its connect() call
+  closeFromReconn : Bool := false  -- close() was called from inside the live reconnect task: it is not cancelled, it ends by itself
   closeCalled : Bool := false
   closeReturned : Bool := false
   closeFromRecv : Bool := false    -- close() was called from inside the live receive task: that task is not cancelled, it ends by itself
@@ -167,11 +169,13 @@ def stepCore (s : CS) (e : Ev) : Option CS :=
   -- … and ends when that call returns, or when close() cancels it
   | .reconnEnd => guard (s.reconn = 1 && ((s.reconnCalled && s.prev = some .connReturn) || s.st = .closed)) { s with reconn := 0 }
   | .closeCallInRecv => guard s.recv.isSome { s with closeCalled := true, closeFromRecv := true }
+  | .closeCallInReconn => guard (s.reconn = 1) { s with closeCalled := true, closeFromReconn := true }
   | .writerClose c =>
     -- the current link is shut by close(), and when it is given up after a fault (before DISCONNECTED is reported)
     guard (s.conn = some c && (s.st = .closed || s.faulted.contains c)) { s with writerClosed := c :: s.writerClosed }
   | .closeReturn =>
-    guard (s.closeCalled && s.st = .closed && (s.recv.isNone || s.closeFromRecv) &&
+    -- (the reconnect task has been cancelled and has ended, unless close() runs inside it)
+    guard (s.closeCalled && s.st = .closed && (s.recv.isNone || s.closeFromRecv) && (s.reconn = 0 || s.closeFromReconn) &&
            (match s.conn with | some c => s.writerClosed.contains c | none => true))
       { s with closeReturned := true }
   | .cfgWrite c => guard (s.okConn = some c && s.conn = some c) s
